@@ -61,6 +61,23 @@ PROPS = {
         "level_text": "Theorems with the host universally quantified: MPVERIFY/MRUPDATE complete only with a path of exactly the stated depth that folds the claimed node to the root; for every tree with that root the claimed node is the node at (depth, index) or an RPO merge collision is exhibited (no injectivity assumed) - proved for an arbitrary two-to-one function by induction on the depth; ADVPOP/ADVPOPW/PIPE deliver values in the documented order and fail on a short tape. Harness: a lying Host overrides hint values (0..65, honest+-1, boundary and random field elements) and Merkle paths (other depth, wrong sibling, other tree, reversed) and node values; completed runs are compared with the hint-free reference (Lean Spec / u64 integer oracle / the honest tree) and the model replays exactly what the VM saw.",
         "level_note": "Known finding C09-ilog2-accepts-wrong-hint is reported, not suppressing other witnesses. Trusted: Lean kernel, harness, miden-crypto MerkleTree/MerkleStore as ground truth for trees.",
     },
+    "C05": {
+        "module": "Miden.Props.C05",
+        "extra_modules": ["Miden.Props.C05Auto.P0", "Miden.Props.C05Auto.P1", "Miden.Props.C05Auto.P2", "Miden.Props.C05Auto.P3"],
+        "gens": ["C05"],
+        "diff_is_witness": True,
+        "assumptions": ["Instruction forms without a refinement theorem yet (u32 arithmetic under the u32 guard, lt/lte/gt/gte, exp, shifts/rotations, popcnt, ext2, ...) are decided by comparing the real VM with the executable reference on boundary grids and random sequences"],
+        "level_text": "Theorems: for 182 instruction forms (all stack manipulation incl. every dup/swap/movup/movdn/word variant, conditional ops, assertions with error codes, field add/sub/mul/neg/inv/div/eq/neq/not, padw/drop/dropw, sdepth, u32assert2, ...) the operation list the REAL assembler emits (regenerated into Generated/InstrOps.lean on every run) refines the instruction reference transcribed from docs/ (Spec/Instr.lean) on every stack of depth >= 16 with arbitrary contents and arbitrary other machine state; depth never drops below 16 for any operation sequence; a left shift at depth 16 brings in a zero; values pushed beyond position 15 come back in LIFO order. Harness: all 499 instruction forms x boundary operands in every position x depths 0..40, exhaustive boundary grids for binary/unary instructions, random sequences of up to 40 instructions, four immediate syntaxes - real VM vs. executable reference.",
+        "level_note": "Reference semantics is hand-transcribed from docs (trusted as the statement). 317 of 499 forms are covered by correspondence only. Trusted: Lean kernel, harness.",
+    },
+    "C16": {
+        "module": "Miden.Props.C16",
+        "gens": ["C16"],
+        "diff_is_witness": True,
+        "assumptions": ["Exactness of the u64/u256 procedures is decided by the integer oracle in the harness on limb-boundary grids and random operands plus model-vs-implementation agreement on the compiled MAST; only the listed procedures have refinement theorems"],
+        "level_text": "Theorems over the MAST compiled from stdlib/asm/math/u64.masm by the real assembler (regenerated every run): proved procedures compute the integer function on all limbs < 2^32 with the rest of the stack untouched. Harness: every exported u64 procedure (29) and u256 procedure (8) on the {0,1,2^31,2^32-1}^4 limb grid, shifts 0..63, random operands; results compared with Rust u64/u128/256-bit oracles, rest of the stack checked untouched, zero divisors must fail; the same runs are replayed on the Lean executor model.",
+        "level_note": "Known findings C16-u64-shr-low-limb-all-ones and C16-u64-rotr-by-0-or-32-limb-all-ones are reported. Trusted: Lean kernel, harness oracles.",
+    },
 }
 
 NOT_APPLICABLE = {}
